@@ -666,7 +666,7 @@ pub fn at_root_drop_end(w: &mut World) {
     // no child outlives the combinator
     for id in 1..w.nodes.len() as NodeId {
         let n = w.node(id);
-        if n.parent != NO_NODE && n.dropped == 0 && n.live {
+        if n.parent != NO_NODE && n.dropped == 0 && n.live && !n.untracked_drop {
             w.flag("c02.outlive", || format!("child n{id} is still alive after the drop of the combinator returned"));
             break;
         }
@@ -677,7 +677,7 @@ pub fn at_end(w: &mut World) {
     w.stats.o_drop_accounting += 1;
     for id in 1..w.nodes.len() as NodeId {
         let n = w.node(id);
-        if n.parent != NO_NODE && n.dropped != 1 && n.live {
+        if n.parent != NO_NODE && n.dropped != 1 && n.live && !n.untracked_drop {
             let d = n.dropped;
             w.flag("c02.child_drop", || format!("child n{id} dropped {d} times (expected exactly once)"));
         }
@@ -702,7 +702,7 @@ pub fn at_end(w: &mut World) {
         }
         for &k in &kids {
             let d = w.node(k).dropped;
-            if d != 1 {
+            if d != 1 && !w.node(k).untracked_drop {
                 w.flag("c06.losers", || format!("child n{k} of a resolved race was dropped {d} times by the time the race future was gone (expected exactly once, together with it)"));
             }
         }
@@ -712,7 +712,7 @@ pub fn at_end(w: &mut World) {
         let kids = w.node(ROOT).children.clone();
         for &k in &kids {
             let d = w.node(k).dropped;
-            if d != 1 {
+            if d != 1 && !w.node(k).untracked_drop {
                 w.flag("c05.discard", || format!("child n{k} of a failed try_join was dropped {d} times by the time the try_join future was gone (expected exactly once)"));
             }
             for v in w.node(k).produced.clone() {
